@@ -230,5 +230,48 @@ func main() { println("@ M main.main", m) }
                                       ("", "main", {"main.go": main}, [0, 1, 2, 3], True)], ["fixed:samename", "std:atomic", "std:unique"])
 
 
+def genmethod():
+    """PROBE of finding C12-generic-method-dep.  The initialiser of A reaches B only through a method of an instantiated generic
+    type (call, method value, method expression).  By the spec that is a reference to the method, hence a dependency: B, D, F are
+    initialised first.  go/types (and gc's types2) drop the dependency because the instantiated method object is not a
+    package-level object.  G/H is the control: the same through a generic *function* is ordered correctly.
+    meta["spec_seq"] is the order the language specification requires; the oracle of this probe is the spec, not the reference."""
+    src = "package gm\n\n" + LG % {"q": "p0"} + '''type box[T int | uint] struct{ v T }
+
+func (b box[T]) getB() int { return int(b.v) + B }
+func (b box[T]) getD() int { return int(b.v) + D }
+func (b box[T]) getF() int { return int(b.v) + F }
+
+func gfun[T int | uint](x T) int { return int(x) + H }
+
+var A = p0lg("@ p0 v.A", box[uint]{v: 1}.getB()) // method call
+var B = p0lg("@ p0 v.B", 5)
+
+var mv = box[int]{v: 2}.getD // method value
+var C = p0lg("@ p0 v.C", mv())
+var D = p0lg("@ p0 v.D", 7)
+
+var E = p0lg("@ p0 v.E", box[int].getF(box[int]{v: 3})) // method expression
+var F = p0lg("@ p0 v.F", 9)
+
+var G = p0lg("@ p0 v.G", gfun[int](4)) // control: generic function
+var H = p0lg("@ p0 v.H", 11)
+
+func Sum() int { return A + C + E + G }
+'''
+    main = 'package main\n\nimport "fx5/gm"\n\nfunc main() { println("@ M main.main", gm.Sum()) }\n'
+    name, files, meta = mk("genmethod", "fx5", "", [("gm", "gm", {"gm.go": src}, [], True), ("", "main", {"main.go": main}, [0], True)],
+                           ["probe:generic-method-dep", "dep:generictype"])
+    meta["finding"] = "C12-generic-method-dep"
+    meta["spec_seq"] = {"p0": [["v.B", "5"], ["v.A", "6"], ["v.D", "7"], ["v.C", "9"], ["v.F", "9"], ["v.E", "12"], ["v.H", "11"], ["v.G", "15"]],
+                        "M": [["main.main", "42"]]}
+    return name, files, meta
+
+
+def probes():
+    """fixed probes of open/fixed findings (run first on every run)"""
+    return [genmethod()]
+
+
 def programs(heavy=1):
     return [stdall(max(1, heavy)), diamond(), fileorder(), samename()]
